@@ -137,6 +137,15 @@ IsOverlapCheck(f) == f.name \in {"detector.CheckSpatialIdsOverlap", "detector.Ch
                                  "detector.CheckExtendedSpatialIdsOverlap", "detector.CheckExtendedSpatialIdsArrayOverlap"}
 CompanionRequired(f, cv) == IsOverlapCheck(f) \/ OnlyZoomsRefuse(f, cv)
 
+\* A malformed ID in a function whose documentation does not exclude it (a non-integer field handed to a converter
+\* that only re-arranges fields): the property asks for nothing there except "no panic" - the library may pass the
+\* field through or refuse it.
+IdTypes == {"ExtId", "SpId", "ExtIdList", "SpIdList"}
+Malformed(ty, c) == IF ty \in {"ExtId", "SpId"} THEN c # "good"
+                    ELSE IF ty \in {"ExtIdList", "SpIdList"} THEN c[1] \notin {"good", "empty"} ELSE FALSE
+Unconstrained(f, cv) ==
+  \E i \in 1..Len(f.slots) : f.slots[i] \in IdTypes /\ Malformed(f.slots[i], cv[i]) /\ ~Excluded(f.slots[i], cv[i], f.parse)
+
 \* acceptance of an observed outcome:
 \*   o = "ok" / "err" / "panic"; companionEmpty = the accompanying value is the
 \*   documented empty one (empty list, false, nil object); hasEmptyId = an empty
@@ -147,5 +156,6 @@ Accept(f, cv, o, companionEmpty, hasEmptyId) ==
      THEN CASE f.kind = "err" -> o = "err" /\ (CompanionRequired(f, cv) => companionEmpty)
             [] f.kind = "shift" -> hasEmptyId                   \* no error result: an empty ID
             [] f.kind = "errOrEmptyId" -> (o = "err") \/ hasEmptyId
+     ELSE IF Unconstrained(f, cv) THEN o \in {"ok", "err"}
      ELSE o = "ok" /\ ~hasEmptyId
 =============================================================================
